@@ -1,6 +1,7 @@
 CONSTANTS
   Letters = {"_", "a"}
-  Max = 6
+  L = 12
+  TailMax = 3
   Prefixes <- PQ
 INIT GInit
 NEXT GNext
